@@ -144,7 +144,7 @@ func init() {
 	}
 	props["C13"] = &Prop{
 		Rule: "op reader <T> <tau> <omega> <script>: the real file_handler.Handle on a scripted io.Reader under bufio (chunks of bytes, single/double/triple EOF and i/o-timeout results between and inside " +
-			"frames at every byte offset of short streams, other errors anywhere, including directly after a tolerated interruption), hundreds of single interruptions in one call, tolerances (0,0), (80 ms, wait 1 ms), (3 ms, wait 15 ms); forwarded bytes, stop reason and delivered messages compared with " +
+			"frames at every byte offset of short streams, other errors anywhere, including directly after a tolerated interruption), hundreds of single interruptions and two or three separate double interruptions in one call, tolerances (0,0), (80 ms, wait 1 ms), (3 ms, wait 15 ms); forwarded bytes, stop reason and delivered messages compared with " +
 			"the model run on an ideal clock and with the property (single interruptions invisible; a stop still delivers everything received, channel closed); non-trivial = the script contains an interruption; distinct = distinct op line",
 		Gen: func(c *Ctx, emit func(class, op string)) {
 			r := c.Rng
@@ -196,7 +196,7 @@ func init() {
 					}
 				}
 			}
-			// a bursty live source: hundreds of single interruptions in one call, each followed by data
+			// a bursty live source: hundreds of single interruptions and two or three separate double interruptions in one call, each followed by data
 			for i := 0; i < c.N(3, 20); i++ {
 				bs := pipeStream(c)
 				for len(bs) < 400 {
@@ -215,6 +215,18 @@ func init() {
 					pos += n
 				}
 				emit("many-single-interruptions", mk([2]int{80, 1}, items))
+			}
+			// several separate double interruptions in one call, each ridden out within the tolerance:
+			// whatever the handler remembers of one must not count against the next
+			for i := 0; i < c.N(6, 40); i++ {
+				bs := append(append(randFrame(r, 2+r.Intn(8)), randFrame(r, 2+r.Intn(8))...), randFrame(r, 2+r.Intn(8))...)
+				a := 1 + r.Intn(len(bs)/2-1)
+				b := a + 1 + r.Intn(len(bs)-a-1)
+				items := []string{"b:" + hx(bs[:a]), fail(), fail(), "b:" + hx(bs[a:b]), fail(), fail(), "b:" + hx(bs[b:])}
+				if i%3 == 2 {
+					items = append(items[:len(items)-1], "b:"+hx(bs[b:b+1]), fail(), fail(), "b:"+hx(bs[b+1:]))
+				}
+				emit("repeated-double-interruptions", mk([][2]int{{80, 1}, {120, 70}, {40, 5}}[i%3], items))
 			}
 			// another read error arriving while the handler is already retrying after a tolerated
 			// end-of-file or timeout (no byte read in between): it stops there, whatever follows
